@@ -9,6 +9,7 @@
 #include "vf_gen.hpp"
 #include <fstream>
 #include <map>
+#include <array>
 #include <memory>
 #include <unistd.h>
 
@@ -245,6 +246,26 @@ template<uint8_t D, class T, size_t Eps> void md_reject_case(Ctx &c) {
             Outcome o = outcome_of([&] { Idx x(tp.begin(), tp.end()); (void) x; });
             expect(c, o, OTHER_STD, "wide_coordinate_not_rejected", J().num("points", L).num("position", pos).num("axis", ax).num("value", bad), true);
         }
+    // the same violation with the coordinates supplied in a WIDER integer type than T (the range's value type need not be
+    // value_type): values whose low digits(T) bits look harmless must still be rejected
+    if constexpr (sizeof(T) < 8) {
+        using WTup = decltype(std::tuple_cat(std::declval<std::array<uint64_t, D>>()));
+        auto mkw = [&](const std::array<uint64_t, D> &p) { WTup t; std::apply([&](auto &...x) { size_t i = 0; ((x = p[i++]), ...); }, t); return t; };
+        const uint64_t wide[] = {(uint64_t(1) << 32) + 7, uint64_t(1) << 40, (uint64_t(1) << 32), (uint64_t(1) << 63) + 3, (uint64_t(1) << 33) + uint64_t(maxc)};
+        for (size_t pos = 0; pos < L; ++pos)
+            for (size_t ax = 0; ax < D; ++ax) {
+                std::vector<WTup> tp;
+                for (size_t i = 0; i < L; ++i) {
+                    std::array<uint64_t, D> w;
+                    for (size_t d = 0; d < D; ++d) w[d] = pts[i][d];
+                    if (i == pos) w[ax] = wide[(pos + ax + c.case_idx) % 5];
+                    tp.push_back(mkw(w));
+                }
+                Outcome o = outcome_of([&] { Idx x(tp.begin(), tp.end()); (void) x; });
+                expect(c, o, OTHER_STD, "wide_coordinate_not_rejected", J().num("points", L).num("position", pos).num("axis", ax)
+                                            .num("value", wide[(pos + ax + c.case_idx) % 5]).str("coordinate_type", "uint64_t (wider than T)"), true);
+            }
+    }
     c.nontrivial = true;
 }
 
